@@ -720,8 +720,3 @@ func keys(m map[string]bool) []string {
 	sort.Strings(out)
 	return out
 }
-
-// c15Unsorted compares schema and converter behaviour of S and its permutation with sort off (engine R).
-func c15Unsorted(tools *pipeline.Tools, r *Recorder, rp *Replay, pf *ir.File) (string, error) {
-	return "", nil
-}
